@@ -236,7 +236,7 @@ func (c *Check) freshDecodeTargets(rule string) {
 		}
 		walk(f.Body)
 	}
-	c.req(nLoop >= 5, rule, "decode-sites", token.NoPos, fmt.Sprintf("%d decode sites, %d of them inside loops", nSites, nLoop))
+	c.req(nSites >= 10, rule, "decode-sites", token.NoPos, fmt.Sprintf("%d decode sites, %d of them inside loops", nSites, nLoop))
 }
 
 // commonPreconditions runs S1 and S2 under the property's own rule prefix.
@@ -745,17 +745,17 @@ func funcSig(f *Func) string {
 // identifies them when that name changes (their signature, or for validators of one string the schema /
 // pattern they check against).
 var typesAnchors = map[string]string{
-	"GenerateRequestID":             "(github.com/tendermint/tendermint/libs/bytes.HexBytes,uint64,int64,int16)->(github.com/tendermint/tendermint/libs/bytes.HexBytes)",
-	"SplitRequestID":                "(github.com/tendermint/tendermint/libs/bytes.HexBytes)->(github.com/tendermint/tendermint/libs/bytes.HexBytes,uint64,int64,int16,error)",
-	"GenerateRequestContextID":      "([]byte,int64)->(github.com/tendermint/tendermint/libs/bytes.HexBytes)",
-	"SplitRequestContextID":         "(github.com/tendermint/tendermint/libs/bytes.HexBytes)->(github.com/tendermint/tendermint/libs/bytes.HexBytes,int64,error)",
-	"GetDiscountByTime":             "(types.Pricing,time.Time)->(sdk.Dec)",
-	"GetDiscountByVolume":           "(types.Pricing,uint64)->(sdk.Dec)",
-	"ValidateRequest":               "(string,sdk.Coins,[]types.AccAddress,string,int64,bool,uint64,int64)->(error)",
+	"GenerateRequestID":              "(github.com/tendermint/tendermint/libs/bytes.HexBytes,uint64,int64,int16)->(github.com/tendermint/tendermint/libs/bytes.HexBytes)",
+	"SplitRequestID":                 "(github.com/tendermint/tendermint/libs/bytes.HexBytes)->(github.com/tendermint/tendermint/libs/bytes.HexBytes,uint64,int64,int16,error)",
+	"GenerateRequestContextID":       "([]byte,int64)->(github.com/tendermint/tendermint/libs/bytes.HexBytes)",
+	"SplitRequestContextID":          "(github.com/tendermint/tendermint/libs/bytes.HexBytes)->(github.com/tendermint/tendermint/libs/bytes.HexBytes,int64,error)",
+	"GetDiscountByTime":              "(types.Pricing,time.Time)->(sdk.Dec)",
+	"GetDiscountByVolume":            "(types.Pricing,uint64)->(sdk.Dec)",
+	"ValidateRequest":                "(string,sdk.Coins,[]types.AccAddress,string,int64,bool,uint64,int64)->(error)",
 	"ValidateRequestContextUpdating": "([]types.AccAddress,sdk.Coins,int64,uint64,int64)->(error)",
-	"NewGenesisState":               "(types.Params,[]types.ServiceDefinition,[]types.ServiceBinding,map[string][]byte,map[string]*types.RequestContext)->(*types.GenesisState)",
-	"ValidateGenesis":               "(types.GenesisState)->(error)",
-	"NewParams":                     "(int64,int64,sdk.Coins,sdk.Dec,sdk.Dec,time.Duration,time.Duration,uint64,string)->(types.Params)",
+	"NewGenesisState":                "(types.Params,[]types.ServiceDefinition,[]types.ServiceBinding,map[string][]byte,map[string]*types.RequestContext)->(*types.GenesisState)",
+	"ValidateGenesis":                "(types.GenesisState)->(error)",
+	"NewParams":                      "(int64,int64,sdk.Coins,sdk.Dec,sdk.Dec,time.Duration,time.Duration,uint64,string)->(types.Params)",
 }
 
 // typesFn resolves an anchor function of package types: by its conventional name, else by its signature.
@@ -833,6 +833,12 @@ func (c *Check) paramValidatorsAgree(rule string) {
 				if t.Is("func") && len(t.A) >= 1 {
 					val = t.A[0].At
 				}
+				// a validator kept in a package-level function variable (built once by a factory)
+				if t.Op == "" && strings.HasPrefix(t.At, "@types.") && t.Typ != nil {
+					if _, isFn := t.Typ.Underlying().(*types.Signature); isFn {
+						val = t.At
+					}
+				}
 				return true
 			})
 			if fld != "" && val != "" {
@@ -847,10 +853,16 @@ func (c *Check) paramValidatorsAgree(rule string) {
 			continue
 		}
 		for _, ev := range pa.Events {
-			if ev.Kind != EvCall || ev.CI.fn == nil {
+			if ev.Kind != EvCall {
 				continue
 			}
-			want, isReg := owner[ev.CI.fn.Name]
+			vname := ""
+			if ev.CI.fn != nil {
+				vname = ev.CI.fn.Name
+			} else if ev.CI.fun != nil && ev.CI.fun.Op == "" {
+				vname = ev.CI.fun.At // a call through a package-level function variable
+			}
+			want, isReg := owner[vname]
 			if !isReg {
 				continue
 			}
@@ -860,7 +872,7 @@ func (c *Check) paramValidatorsAgree(rule string) {
 					n++
 					got := strings.TrimPrefix(a.Op, ".Params.")
 					c.req(got == want, rule, "types.Params.Validate#"+got, ev.Pos,
-						fmt.Sprintf("field %s is validated by %s, which the parameter store registers for %s", got, ev.CI.fn.Name, want))
+						fmt.Sprintf("field %s is validated by %s, which the parameter store registers for %s", got, vname, want))
 				}
 			}
 		}
@@ -884,6 +896,9 @@ func (c *Check) paramValidatorsAgree(rule string) {
 					v := stripConv(kv.A[0])
 					if v.Is("func") && len(v.A) >= 1 {
 						val = v.A[0].At
+					}
+					if v.Op == "" && strings.HasPrefix(v.At, "@types.") && owner[v.At] != "" {
+						val = v.At
 					}
 					if strings.HasPrefix(v.Op, ".Params.") && len(v.A) == 1 {
 						fld = strings.TrimPrefix(v.Op, ".Params.")
